@@ -47,32 +47,19 @@
 /* VERIF-UNIT
 {
  "name": "crc32c_lemma_e_1",
- "props": [
-  "C14"
- ],
+ "props": ["C14"],
  "level": "U",
  "tier": "quick",
  "harness": "h_lemma_e_script",
- "replace": [
-  "crc32c_lemma_lin2"
- ],
- "defines": [
-  "VERIF_CUT_GROUP=1"
- ],
+ "replace": ["crc32c_lemma_lin2"],
+ "defines": ["VERIF_CUT_GROUP=1"],
  "backend": "kissat",
  "unwind": 10,
  "unwind_reason": "ghost proof script only: loops over the 4 lanes, the 8 byte steps and at most 8 xor terms, all constant bounds <= 9; unwinding assertions on",
- "cbmc_flags": [
-  "--object-bits",
-  "12"
- ],
- "functions": [
-  "specs/crc_lemmas.h:crc32c_lemma_e"
- ],
- "assumes": [
-  "cuts of groups 2, 3, 4 are assumed at their program points; each is asserted by crc/crc32c_lemma_e_2, _3, _4 under the same preceding cuts (assert-then-assume sequencing, see the comment at the top of lemma_e.c)",
-  "LEMMA LIN2 instances by contract replacement; enforced by crc/crc32c_lemma_lin2"
- ],
+ "cbmc_flags": ["--object-bits", "12"],
+ "functions": [],
+ "assumes": ["cuts of groups 2, 3, 4 are assumed at their program points; each is asserted by crc/crc32c_lemma_e_2, _3, _4 under the same preceding cuts (assert-then-assume sequencing, see the comment at the top of lemma_e.c)",
+             "LEMMA LIN2 instances by contract replacement; enforced by crc/crc32c_lemma_lin2"],
  "timeout": 400,
  "native": false
 }
@@ -80,32 +67,19 @@
 /* VERIF-UNIT
 {
  "name": "crc32c_lemma_e_2",
- "props": [
-  "C14"
- ],
+ "props": ["C14"],
  "level": "U",
  "tier": "quick",
  "harness": "h_lemma_e_script",
- "replace": [
-  "crc32c_lemma_lin2"
- ],
- "defines": [
-  "VERIF_CUT_GROUP=2"
- ],
+ "replace": ["crc32c_lemma_lin2"],
+ "defines": ["VERIF_CUT_GROUP=2"],
  "backend": "kissat",
  "unwind": 10,
  "unwind_reason": "ghost proof script only: loops over the 4 lanes, the 8 byte steps and at most 8 xor terms, all constant bounds <= 9; unwinding assertions on",
- "cbmc_flags": [
-  "--object-bits",
-  "12"
- ],
- "functions": [
-  "specs/crc_lemmas.h:crc32c_lemma_e"
- ],
- "assumes": [
-  "cuts of groups 1, 3, 4 are assumed at their program points; each is asserted by crc/crc32c_lemma_e_1, _3, _4 under the same preceding cuts (assert-then-assume sequencing, see the comment at the top of lemma_e.c)",
-  "LEMMA LIN2 instances by contract replacement; enforced by crc/crc32c_lemma_lin2"
- ],
+ "cbmc_flags": ["--object-bits", "12"],
+ "functions": [],
+ "assumes": ["cuts of groups 1, 3, 4 are assumed at their program points; each is asserted by crc/crc32c_lemma_e_1, _3, _4 under the same preceding cuts (assert-then-assume sequencing, see the comment at the top of lemma_e.c)",
+             "LEMMA LIN2 instances by contract replacement; enforced by crc/crc32c_lemma_lin2"],
  "timeout": 400,
  "native": false
 }
@@ -113,32 +87,19 @@
 /* VERIF-UNIT
 {
  "name": "crc32c_lemma_e_3",
- "props": [
-  "C14"
- ],
+ "props": ["C14"],
  "level": "U",
  "tier": "quick",
  "harness": "h_lemma_e_script",
- "replace": [
-  "crc32c_lemma_lin2"
- ],
- "defines": [
-  "VERIF_CUT_GROUP=3"
- ],
+ "replace": ["crc32c_lemma_lin2"],
+ "defines": ["VERIF_CUT_GROUP=3"],
  "backend": "kissat",
  "unwind": 10,
  "unwind_reason": "ghost proof script only: loops over the 4 lanes, the 8 byte steps and at most 8 xor terms, all constant bounds <= 9; unwinding assertions on",
- "cbmc_flags": [
-  "--object-bits",
-  "12"
- ],
- "functions": [
-  "specs/crc_lemmas.h:crc32c_lemma_e"
- ],
- "assumes": [
-  "cuts of groups 1, 2, 4 are assumed at their program points; each is asserted by crc/crc32c_lemma_e_1, _2, _4 under the same preceding cuts (assert-then-assume sequencing, see the comment at the top of lemma_e.c)",
-  "LEMMA LIN2 instances by contract replacement; enforced by crc/crc32c_lemma_lin2"
- ],
+ "cbmc_flags": ["--object-bits", "12"],
+ "functions": [],
+ "assumes": ["cuts of groups 1, 2, 4 are assumed at their program points; each is asserted by crc/crc32c_lemma_e_1, _2, _4 under the same preceding cuts (assert-then-assume sequencing, see the comment at the top of lemma_e.c)",
+             "LEMMA LIN2 instances by contract replacement; enforced by crc/crc32c_lemma_lin2"],
  "timeout": 400,
  "native": false
 }
@@ -146,34 +107,20 @@
 /* VERIF-UNIT
 {
  "name": "crc32c_lemma_e_4",
- "props": [
-  "C14"
- ],
+ "props": ["C14"],
  "level": "U",
  "tier": "quick",
  "harness": "h_lemma_e_script",
- "replace": [
-  "crc32c_lemma_lin2"
- ],
- "defines": [
-  "VERIF_CUT_GROUP=4"
- ],
+ "replace": ["crc32c_lemma_lin2"],
+ "defines": ["VERIF_CUT_GROUP=4"],
  "backend": "kissat",
  "unwind": 10,
  "unwind_reason": "ghost proof script only: loops over the 4 lanes, the 8 byte steps and at most 8 xor terms, all constant bounds <= 9; unwinding assertions on",
- "cbmc_flags": [
-  "--object-bits",
-  "12"
- ],
- "functions": [
-  "specs/crc_lemmas.h:crc32c_lemma_e",
-  "lib/ext2fs/crc32c.c:crc32ctable_le"
- ],
- "assumes": [
-  "cuts of groups 1, 2, 3 are assumed at their program points; each is asserted by crc/crc32c_lemma_e_1, _2, _3 under the same preceding cuts (assert-then-assume sequencing, see the comment at the top of lemma_e.c)",
-  "LEMMA LIN2 instances by contract replacement; enforced by crc/crc32c_lemma_lin2",
-  "little-endian host configuration (tole(x) = x), CRC_LE_BITS = 64 as built"
- ],
+ "cbmc_flags": ["--object-bits", "12"],
+ "functions": ["lib/ext2fs/gen_crc32ctable.c:crc32cinit_le"],
+ "assumes": ["cuts of groups 1, 2, 3 are assumed at their program points; each is asserted by crc/crc32c_lemma_e_1, _2, _3 under the same preceding cuts (assert-then-assume sequencing, see the comment at the top of lemma_e.c)",
+             "LEMMA LIN2 instances by contract replacement; enforced by crc/crc32c_lemma_lin2",
+             "little-endian host configuration (tole(x) = x), CRC_LE_BITS = 64 as built"],
  "timeout": 400,
  "native": false
 }
@@ -181,37 +128,21 @@
 /* VERIF-UNIT
 {
  "name": "crc32c_lemma_e_5",
- "props": [
-  "C14"
- ],
+ "props": ["C14"],
  "level": "U",
  "tier": "quick",
  "harness": "h_lemma_e",
- "enforce": [
-  "crc32c_lemma_e"
- ],
- "replace": [
-  "crc32c_lemma_lin2"
- ],
- "defines": [
-  "VERIF_CUT_GROUP=5"
- ],
+ "enforce": ["crc32c_lemma_e"],
+ "replace": ["crc32c_lemma_lin2"],
+ "defines": ["VERIF_CUT_GROUP=5"],
  "backend": "cvc5",
  "unwind": 10,
  "unwind_reason": "ghost proof script only: loops over the 4 lanes, the 8 byte steps and at most 8 xor terms, all constant bounds <= 9; unwinding assertions on",
- "cbmc_flags": [
-  "--object-bits",
-  "12"
- ],
- "functions": [
-  "specs/crc_lemmas.h:crc32c_lemma_e",
-  "lib/ext2fs/crc32c.c:crc32ctable_le"
- ],
- "assumes": [
-  "every cut of the script (groups 1-4) is assumed at its program point; each is asserted by crc/crc32c_lemma_e_1 .. _4 under the same preceding cuts (assert-then-assume sequencing, see the comment at the top of lemma_e.c); this unit proves the step from the last cut COMPOSE to the contract of crc32c_lemma_e, whose postcondition re-evaluates the formula and the eight byte steps from the arguments (a congruence argument: SMT back end)",
-  "LEMMA LIN2 instances by contract replacement; enforced by crc/crc32c_lemma_lin2",
-  "little-endian host configuration (tole(x) = x), CRC_LE_BITS = 64 as built"
- ],
+ "cbmc_flags": ["--object-bits", "12"],
+ "functions": [],
+ "assumes": ["every cut of the script (groups 1-4) is assumed at its program point; each is asserted by crc/crc32c_lemma_e_1 .. _4 under the same preceding cuts (assert-then-assume sequencing, see the comment at the top of lemma_e.c); this unit proves the step from the last cut COMPOSE to the contract of crc32c_lemma_e, whose postcondition re-evaluates the formula and the eight byte steps from the arguments (a congruence argument: SMT back end)",
+             "LEMMA LIN2 instances by contract replacement; enforced by crc/crc32c_lemma_lin2",
+             "little-endian host configuration (tole(x) = x), CRC_LE_BITS = 64 as built"],
  "timeout": 400,
  "native": false
 }
@@ -219,33 +150,19 @@
 /* VERIF-UNIT
 {
  "name": "crc32be_lemma_e_1",
- "props": [
-  "C14"
- ],
+ "props": ["C14"],
  "level": "U",
  "tier": "quick",
  "harness": "h_lemma_e_script",
- "replace": [
-  "crc32be_lemma_lin2"
- ],
- "defines": [
-  "CRC_VARIANT_BE",
-  "VERIF_CUT_GROUP=1"
- ],
+ "replace": ["crc32be_lemma_lin2"],
+ "defines": ["CRC_VARIANT_BE", "VERIF_CUT_GROUP=1"],
  "backend": "kissat",
  "unwind": 10,
  "unwind_reason": "ghost proof script only: loops over the 4 lanes, the 8 byte steps and at most 8 xor terms, all constant bounds <= 9; unwinding assertions on",
- "cbmc_flags": [
-  "--object-bits",
-  "12"
- ],
- "functions": [
-  "specs/crc_lemmas.h:crc32be_lemma_e"
- ],
- "assumes": [
-  "cuts of groups 2, 3, 4 are assumed at their program points; each is asserted by crc/crc32be_lemma_e_2, _3, _4 under the same preceding cuts (assert-then-assume sequencing, see the comment at the top of lemma_e.c)",
-  "LEMMA LIN2 instances by contract replacement; enforced by crc/crc32be_lemma_lin2"
- ],
+ "cbmc_flags": ["--object-bits", "12"],
+ "functions": [],
+ "assumes": ["cuts of groups 2, 3, 4 are assumed at their program points; each is asserted by crc/crc32be_lemma_e_2, _3, _4 under the same preceding cuts (assert-then-assume sequencing, see the comment at the top of lemma_e.c)",
+             "LEMMA LIN2 instances by contract replacement; enforced by crc/crc32be_lemma_lin2"],
  "timeout": 400,
  "native": false
 }
@@ -253,33 +170,19 @@
 /* VERIF-UNIT
 {
  "name": "crc32be_lemma_e_2",
- "props": [
-  "C14"
- ],
+ "props": ["C14"],
  "level": "U",
  "tier": "quick",
  "harness": "h_lemma_e_script",
- "replace": [
-  "crc32be_lemma_lin2"
- ],
- "defines": [
-  "CRC_VARIANT_BE",
-  "VERIF_CUT_GROUP=2"
- ],
+ "replace": ["crc32be_lemma_lin2"],
+ "defines": ["CRC_VARIANT_BE", "VERIF_CUT_GROUP=2"],
  "backend": "kissat",
  "unwind": 10,
  "unwind_reason": "ghost proof script only: loops over the 4 lanes, the 8 byte steps and at most 8 xor terms, all constant bounds <= 9; unwinding assertions on",
- "cbmc_flags": [
-  "--object-bits",
-  "12"
- ],
- "functions": [
-  "specs/crc_lemmas.h:crc32be_lemma_e"
- ],
- "assumes": [
-  "cuts of groups 1, 3, 4 are assumed at their program points; each is asserted by crc/crc32be_lemma_e_1, _3, _4 under the same preceding cuts (assert-then-assume sequencing, see the comment at the top of lemma_e.c)",
-  "LEMMA LIN2 instances by contract replacement; enforced by crc/crc32be_lemma_lin2"
- ],
+ "cbmc_flags": ["--object-bits", "12"],
+ "functions": [],
+ "assumes": ["cuts of groups 1, 3, 4 are assumed at their program points; each is asserted by crc/crc32be_lemma_e_1, _3, _4 under the same preceding cuts (assert-then-assume sequencing, see the comment at the top of lemma_e.c)",
+             "LEMMA LIN2 instances by contract replacement; enforced by crc/crc32be_lemma_lin2"],
  "timeout": 400,
  "native": false
 }
@@ -287,33 +190,19 @@
 /* VERIF-UNIT
 {
  "name": "crc32be_lemma_e_3",
- "props": [
-  "C14"
- ],
+ "props": ["C14"],
  "level": "U",
  "tier": "quick",
  "harness": "h_lemma_e_script",
- "replace": [
-  "crc32be_lemma_lin2"
- ],
- "defines": [
-  "CRC_VARIANT_BE",
-  "VERIF_CUT_GROUP=3"
- ],
+ "replace": ["crc32be_lemma_lin2"],
+ "defines": ["CRC_VARIANT_BE", "VERIF_CUT_GROUP=3"],
  "backend": "kissat",
  "unwind": 10,
  "unwind_reason": "ghost proof script only: loops over the 4 lanes, the 8 byte steps and at most 8 xor terms, all constant bounds <= 9; unwinding assertions on",
- "cbmc_flags": [
-  "--object-bits",
-  "12"
- ],
- "functions": [
-  "specs/crc_lemmas.h:crc32be_lemma_e"
- ],
- "assumes": [
-  "cuts of groups 1, 2, 4 are assumed at their program points; each is asserted by crc/crc32be_lemma_e_1, _2, _4 under the same preceding cuts (assert-then-assume sequencing, see the comment at the top of lemma_e.c)",
-  "LEMMA LIN2 instances by contract replacement; enforced by crc/crc32be_lemma_lin2"
- ],
+ "cbmc_flags": ["--object-bits", "12"],
+ "functions": [],
+ "assumes": ["cuts of groups 1, 2, 4 are assumed at their program points; each is asserted by crc/crc32be_lemma_e_1, _2, _4 under the same preceding cuts (assert-then-assume sequencing, see the comment at the top of lemma_e.c)",
+             "LEMMA LIN2 instances by contract replacement; enforced by crc/crc32be_lemma_lin2"],
  "timeout": 400,
  "native": false
 }
@@ -321,35 +210,20 @@
 /* VERIF-UNIT
 {
  "name": "crc32be_lemma_e_4",
- "props": [
-  "C14"
- ],
+ "props": ["C14"],
  "level": "U",
  "tier": "quick",
  "harness": "h_lemma_e_script",
- "replace": [
-  "crc32be_lemma_lin2"
- ],
- "defines": [
-  "CRC_VARIANT_BE",
-  "VERIF_CUT_GROUP=4"
- ],
+ "replace": ["crc32be_lemma_lin2"],
+ "defines": ["CRC_VARIANT_BE", "VERIF_CUT_GROUP=4"],
  "backend": "kissat",
  "unwind": 10,
  "unwind_reason": "ghost proof script only: loops over the 4 lanes, the 8 byte steps and at most 8 xor terms, all constant bounds <= 9; unwinding assertions on",
- "cbmc_flags": [
-  "--object-bits",
-  "12"
- ],
- "functions": [
-  "specs/crc_lemmas.h:crc32be_lemma_e",
-  "lib/ext2fs/crc32c.c:crc32table_be"
- ],
- "assumes": [
-  "cuts of groups 1, 2, 3 are assumed at their program points; each is asserted by crc/crc32be_lemma_e_1, _2, _3 under the same preceding cuts (assert-then-assume sequencing, see the comment at the top of lemma_e.c)",
-  "LEMMA LIN2 instances by contract replacement; enforced by crc/crc32be_lemma_lin2",
-  "little-endian host configuration (tobe(x) = swab32(x)), CRC_BE_BITS = 64 as built"
- ],
+ "cbmc_flags": ["--object-bits", "12"],
+ "functions": ["lib/ext2fs/gen_crc32ctable.c:crc32init_be"],
+ "assumes": ["cuts of groups 1, 2, 3 are assumed at their program points; each is asserted by crc/crc32be_lemma_e_1, _2, _3 under the same preceding cuts (assert-then-assume sequencing, see the comment at the top of lemma_e.c)",
+             "LEMMA LIN2 instances by contract replacement; enforced by crc/crc32be_lemma_lin2",
+             "little-endian host configuration (tobe(x) = swab32(x)), CRC_BE_BITS = 64 as built"],
  "timeout": 400,
  "native": false
 }
@@ -357,38 +231,21 @@
 /* VERIF-UNIT
 {
  "name": "crc32be_lemma_e_5",
- "props": [
-  "C14"
- ],
+ "props": ["C14"],
  "level": "U",
  "tier": "quick",
  "harness": "h_lemma_e",
- "enforce": [
-  "crc32be_lemma_e"
- ],
- "replace": [
-  "crc32be_lemma_lin2"
- ],
- "defines": [
-  "CRC_VARIANT_BE",
-  "VERIF_CUT_GROUP=5"
- ],
+ "enforce": ["crc32be_lemma_e"],
+ "replace": ["crc32be_lemma_lin2"],
+ "defines": ["CRC_VARIANT_BE", "VERIF_CUT_GROUP=5"],
  "backend": "cvc5",
  "unwind": 10,
  "unwind_reason": "ghost proof script only: loops over the 4 lanes, the 8 byte steps and at most 8 xor terms, all constant bounds <= 9; unwinding assertions on",
- "cbmc_flags": [
-  "--object-bits",
-  "12"
- ],
- "functions": [
-  "specs/crc_lemmas.h:crc32be_lemma_e",
-  "lib/ext2fs/crc32c.c:crc32table_be"
- ],
- "assumes": [
-  "every cut of the script (groups 1-4) is assumed at its program point; each is asserted by crc/crc32be_lemma_e_1 .. _4 under the same preceding cuts (assert-then-assume sequencing, see the comment at the top of lemma_e.c); this unit proves the step from the last cut COMPOSE to the contract of crc32be_lemma_e, whose postcondition re-evaluates the formula and the eight byte steps from the arguments (a congruence argument: SMT back end)",
-  "LEMMA LIN2 instances by contract replacement; enforced by crc/crc32be_lemma_lin2",
-  "little-endian host configuration (tobe(x) = swab32(x)), CRC_BE_BITS = 64 as built"
- ],
+ "cbmc_flags": ["--object-bits", "12"],
+ "functions": [],
+ "assumes": ["every cut of the script (groups 1-4) is assumed at its program point; each is asserted by crc/crc32be_lemma_e_1 .. _4 under the same preceding cuts (assert-then-assume sequencing, see the comment at the top of lemma_e.c); this unit proves the step from the last cut COMPOSE to the contract of crc32be_lemma_e, whose postcondition re-evaluates the formula and the eight byte steps from the arguments (a congruence argument: SMT back end)",
+             "LEMMA LIN2 instances by contract replacement; enforced by crc/crc32be_lemma_lin2",
+             "little-endian host configuration (tobe(x) = swab32(x)), CRC_BE_BITS = 64 as built"],
  "timeout": 400,
  "native": false
 }
